@@ -35,7 +35,7 @@ var assumptions = []string{
 func TestMain(m *testing.M) { evid.Main(m, "C10", rule, assumptions) }
 
 type Op struct {
-	K string      `json:"op"` // reg | hdr | req
+	K string      `json:"op"` // reg | hdr | req | autohead
 	M string      `json:"m,omitempty"`
 	R string      `json:"route,omitempty"`
 	I int         `json:"i,omitempty"` // hdr: index of the registration
@@ -44,6 +44,8 @@ type Op struct {
 	Q [][2]string `json:"headers,omitempty"`
 	// W: spelling on the wire (rt.Req.Wire)
 	W string `json:"wire,omitempty"`
+	// On (autohead): the value AutoHead is set to from here on.
+	On bool `json:"on,omitempty"`
 }
 
 type Case struct {
@@ -66,8 +68,15 @@ func checkCase(c Case) (out evid.Outcome) {
 	trees := map[string]route.Tree{}
 	var regs []*regState
 	sawHdrOnStatic := false
+	autoHead := false
 	for step, op := range c.Ops {
 		switch op.K {
+		case "autohead":
+			// switched on or off for good: registrations through Route are not
+			// affected, and neither is any request
+			autoHead = op.On
+			f.AutoHead(op.On)
+			out.Classes = append(out.Classes, "autohead-switched")
 		case "reg":
 			idx := len(regs)
 			rs := &regState{m: op.M, r: op.R, leaves: map[string]route.Leaf{}}
@@ -91,7 +100,7 @@ func checkCase(c Case) (out evid.Outcome) {
 				switch op.M {
 				case "autohead-get":
 					f.AutoHead(true)
-					defer f.AutoHead(false)
+					defer func() { f.AutoHead(autoHead) }()
 					rs.fr = f.Get(op.R, hf)
 					return nil
 				case "any":
@@ -319,6 +328,8 @@ func showOps(ops []Op) string {
 			parts = append(parts, "reg "+o.M+" "+o.R)
 		case "hdr":
 			parts = append(parts, fmt.Sprintf("hdr #%d %v", o.I, o.H))
+		case "autohead":
+			parts = append(parts, fmt.Sprintf("autohead %v", o.On))
 		case "req":
 			parts = append(parts, fmt.Sprintf("req %s %q", o.M, o.P))
 		}
@@ -342,6 +353,10 @@ func genCase(t *rapid.T) Case {
 	}
 	for i := 0; i < n; i++ {
 		k := rapid.IntRange(0, 9).Draw(t, "opk")
+		if rapid.IntRange(0, 14).Draw(t, "ah") == 0 {
+			c.Ops = append(c.Ops, Op{K: "autohead", On: rapid.IntRange(0, 2).Draw(t, "ahon") > 0})
+			continue
+		}
 		switch {
 		case k < 3 || len(regs) == 0: // register
 			var d model.Route
@@ -410,6 +425,9 @@ func genCase(t *rapid.T) Case {
 			d := rt.Deriv(h.r)
 			ms := expand(h.m)
 			m := ms[rapid.IntRange(0, len(ms)-1).Draw(t, "qm")]
+			if m == "GET" && rapid.IntRange(0, 5).Draw(t, "head") == 0 {
+				m = "HEAD" // (HEAD for a route that may or may not have a HEAD counterpart)
+			}
 			if rapid.IntRange(0, 9).Draw(t, "oddm") == 0 {
 				m = []string{"BREW", "", "get", "PUT"}[rapid.IntRange(0, 3).Draw(t, "om")]
 			}
